@@ -716,11 +716,11 @@ func run(r *evid.Run) {
 	family := cleanFamily(r.Quick())
 	r.ParallelFor(len(family), 0, func(i int) {
 		// every single rule on its own: every 7th member (quick) / every 4th member (thorough);
-		// PROTOVALIDATE-including configurations: every 8th / every 6th member
+		// PROTOVALIDATE-including configurations: every 12th / every 6th member
 		single, pv := i%4 == 0, 0
 		if r.Quick() {
 			single = i%7 == 0
-			if i%8 == 0 {
+			if i%12 == 0 {
 				pv = 3
 			}
 		} else if i%6 == 0 {
@@ -746,42 +746,44 @@ func run(r *evid.Run) {
 			seenSite := map[string]bool{}
 			for _, j := range protovalidateJobs(b) {
 				if r.Quick() {
-					// quick: first base only, one instance per (operator, site role)
-					if bi > 0 || seenSite[j.pl.Op+"|"+j.pl.Site] {
+					// quick: first base only, one instance per (operator, nesting depth / oneof)
+					role := j.pl.Op + "|" + strings.SplitN(j.pl.Site, ":", 2)[0] + strings.SplitN(j.pl.Site, "/", 3)[1]
+					if bi > 0 || seenSite[role] {
 						continue
 					}
-					seenSite[j.pl.Op+"|"+j.pl.Site] = true
+					seenSite[role] = true
 				}
 				jobs = append(jobs, j)
 				opSet[j.pl.Op] = true
 			}
 		}
 	}
-	// Configuration menus. Quick: the full menu on the first base, the lite menu on the others.
+	// Configuration menus. Thorough: the full menu everywhere. Quick: the full menu for the first
+	// instance of every operator on the first base (the configuration dimension does not depend on the
+	// site), the lite menu for every other instance.
 	// PROTOVALIDATE-including configurations: PROTOVALIDATE plants (level 2 quick / 3 thorough); the first
-	// instance of every operator on the first base (level 1 quick / 3 thorough); the first instance of
-	// every planted rule on the other bases (level 1).
+	// instance of every operator on the first base (thorough, level 3); the first instance of every
+	// planted rule on each base (level 1).
 	pv := make([]int, len(jobs))
 	lite := make([]bool, len(jobs))
-	seen := map[string]bool{}
+	seenOp, seenRule := map[string]bool{}, map[string]bool{}
 	for i, j := range jobs {
 		first := j.p.Key() == bases[0].Key()
-		lite[i] = r.Quick() && !first
-		key := j.pl.Rule + "|" + j.p.Key()
-		if first {
-			key = j.pl.Op
-		}
+		firstOfOp := first && !seenOp[j.pl.Op]
+		seenOp[j.pl.Op] = seenOp[j.pl.Op] || first
+		ruleKey := j.pl.Rule + "|" + j.p.Key()
+		firstOfRule := !seenRule[ruleKey]
+		seenRule[ruleKey] = true
+		lite[i] = r.Quick() && !firstOfOp
 		switch {
 		case j.pl.Heavy && r.Quick():
 			pv[i], lite[i] = 2, true
 		case j.pl.Heavy:
 			pv[i] = 3
-		case !seen[key]:
-			seen[key] = true
+		case firstOfOp && !r.Quick():
+			pv[i] = 3
+		case firstOfRule:
 			pv[i] = 1
-			if first && !r.Quick() {
-				pv[i] = 3
-			}
 		}
 	}
 	r.ParallelFor(len(jobs), 0, func(i int) {
